@@ -147,3 +147,141 @@ def reflection_drops_entries(cl, mod, cls, func):
 
 
 R.fclause("C19", "reflection/drops-entries", "custom", RF, fn=reflection_drops_entries)
+
+# ---------------------------------------------------------------- C02: effectful entry points of gated features are gate-dominated
+T1P = "clematis/engine/stages/t1.py:t1_propagate"
+T2S = "clematis/engine/stages/t2/core.py:t2_semantic"
+R.fclause("C02", "gate/t1-run_parallel", "gate", T1P, sites={"call": "run_parallel"}, gate="_t1_parallel_enabled(ctx.cfg)", skip_nested=True)
+R.fclause("C02", "gate/t2-run_parallel", "gate", T2S, sites={"call": "run_parallel"},
+          gate="_t2_parallel_enabled(cfg_root, backend_selected, index)", skip_nested=True)
+R.fclause("C02", "gate/gel-observe", "gate", RT, sites={"call": "gel_observe"}, gate="graph_enabled and not _dry_run", skip_nested=True)
+R.fclause("C02", "gate/gel-tick", "gate", RT, sites={"call": "gel_tick"}, gate="graph_enabled2", skip_nested=True)
+R.fclause("C02", "gate/gel-maintenance", "gate", RT,
+          sites=[{"call": "gel_apply_merge"}, {"call": "gel_apply_split"}, {"call": "gel_apply_promotion"},
+                 {"call": "gel_merge_candidates"}, {"call": "gel_split_candidates"}, {"call": "gel_promote_clusters"}],
+          gate="graph_enabled2", skip_nested=True)
+R.fclause("C02", "gate/gel-log", "gate", RT, sites={"call": "_append_jsonl", "arg0": "gel.jsonl"},
+          gate="(graph_enabled and not _dry_run) or graph_enabled2", skip_nested=True)
+R.fclause("C02", "gate/defn-graph_enabled", "custom", RT,
+          fn=defn_clause("graph_enabled", "bool(graph_cfg_all.get('enabled', False)) if isinstance(graph_cfg_all, dict) else False"))
+R.fclause("C02", "gate/defn-graph_enabled2", "custom", RT,
+          fn=defn_clause("graph_enabled2", "bool(graph_cfg_all2.get('enabled', False)) if isinstance(graph_cfg_all2, dict) else False"))
+R.fclause("C02", "gate/scheduler-events", "gate", RT, sites={"call": "_write_or_capture_scheduler_event"},
+          gate="slice_ctx is not None", skip_nested=True)
+R.fclause("C02", "gate/should_yield", "gate", RT, sites={"call": "_should_yield"}, gate="slice_ctx is not None", skip_nested=True)
+R.fclause(["C02", "C19"], "gate/reflection-compute", "gate", RF, sites={"call": "reflect_fn"},
+          gate="allow_reflection and plan_reflect")
+
+
+def slice_ctx_only_when_scheduler_on(cl, mod, cls, func):
+    """slice_ctx is None unless sched_enabled: it is bound to None once, and otherwise only inside `if sched_enabled:`"""
+    sites = find_sites(func, lambda n: isinstance(n, (ast.Assign, ast.AnnAssign)) and any(
+        isinstance(t, ast.Name) and t.id == "slice_ctx" for t in (n.targets if isinstance(n, ast.Assign) else [n.target])))
+    sites = [s for s in sites if not s[1].funcs]
+    out = []
+    if not sites:
+        return [result(cl["name"], "error", "anchor lost: no assignment to slice_ctx")]
+    for k, (node, info) in enumerate(sites):
+        val = node.value
+        nm = "%s#%d@L%d" % (cl["name"], k, node.lineno)
+        if isinstance(val, ast.Constant) and val.value is None:
+            out.append(result(nm, "proved", where="slice_ctx = None"))
+            continue
+        gs = [ast.unparse(e) for e, pol in info.guards if pol]
+        if "sched_enabled" in gs:
+            out.append(result(nm, "proved", where="non-None binding under `if sched_enabled`"))
+        else:
+            out.append(result(nm, "failed", "slice_ctx is bound to a non-None value at line %d outside `if sched_enabled:`" % node.lineno))
+    return out
+
+
+R.fclause(["C02", "C17"], "gate/slice_ctx-needs-scheduler", "custom", RT, fn=slice_ctx_only_when_scheduler_on)
+R.fclause(["C02", "C17"], "gate/defn-sched_enabled", "custom", RT, fn=defn_clause("sched_enabled", "_m5_enabled(ctx)"))
+
+
+def budgets_removed_when_off(cl, mod, cls, func):
+    """with the scheduler off, slice_budgets is removed from ctx (delattr, or set to None)"""
+    sites = find_sites(func, lambda n: isinstance(n, ast.Call) and getattr(n.func, "id", None) in ("delattr", "setattr")
+                       and len(n.args) >= 2 and isinstance(n.args[1], ast.Constant) and n.args[1].value == "slice_budgets")
+    dels = [s for s in sites if s[0].func.id == "delattr" and any((ast.unparse(e) == "sched_enabled" and not pol) for e, pol in s[1].guards)]
+    if dels:
+        return [result(cl["name"], "proved", where="delattr(ctx, 'slice_budgets') in the else branch of `if sched_enabled`")]
+    return [result(cl["name"], "failed", "no delattr(ctx, 'slice_budgets') on the scheduler-off path")]
+
+
+R.fclause(["C02", "C17"], "gate/slice_budgets-removed-when-off", "custom", RT, fn=budgets_removed_when_off)
+
+
+# ---------------------------------------------------------------- C17: a turn yields only at the five stage boundaries
+def yield_sites(cl, mod, cls, func):
+    out = []
+    stmts = find_sites(func, lambda n: isinstance(n, ast.Assign) and isinstance(n.value, ast.Call)
+                       and getattr(n.value.func, "id", None) == "_should_yield")
+    stmts = [s for s in stmts if not s[1].funcs]
+    out.append(result(cl["name"] + "/five-boundaries", "proved" if len(stmts) == 5 else "failed",
+                      "" if len(stmts) == 5 else "expected 5 boundary checks (after T1, T2, T3, T4, Apply), found %d" % len(stmts)))
+    # every boundary check is followed by `if reason:` whose body logs the scheduler event, the yielded turn record, and returns
+    parents = {}
+    for n in ast.walk(func):
+        for f in ("body", "orelse", "finalbody"):
+            blk = getattr(n, f, None)
+            if isinstance(blk, list):
+                for i, st in enumerate(blk):
+                    parents[id(st)] = (blk, i)
+    yield_returns = set()
+    for k, (node, info) in enumerate(stmts):
+        nm = "%s/boundary#%d@L%d" % (cl["name"], k, node.lineno)
+        blk, i = parents.get(id(node), (None, None))
+        nxt = None
+        if blk is not None:
+            # the assignment may sit inside a try: look in the enclosing block after the try as well
+            cand = blk[i + 1:] if i + 1 < len(blk) else []
+            for st in cand:
+                if isinstance(st, ast.If) and ast.unparse(st.test) == "reason":
+                    nxt = st
+                    break
+        if nxt is None:
+            for (tr, part) in reversed(info.tries):
+                b2, j = parents.get(id(tr), (None, None))
+                if b2 is not None:
+                    for st in b2[j + 1:]:
+                        if isinstance(st, ast.If) and ast.unparse(st.test) == "reason":
+                            nxt = st
+                            break
+                if nxt is not None:
+                    break
+        if nxt is None:
+            out.append(result(nm, "failed", "no `if reason:` block follows the boundary check at line %d" % node.lineno))
+            continue
+        calls = [c for c in ast.walk(nxt) if isinstance(c, ast.Call)]
+        ev = any(getattr(c.func, "id", None) == "_write_or_capture_scheduler_event" for c in calls)
+        tr = False
+        for c in calls:
+            if getattr(c.func, "id", None) == "_append_jsonl" and c.args and isinstance(c.args[0], ast.Constant) and c.args[0].value == "turn.jsonl":
+                src = ast.unparse(c)
+                if "'yielded': True" in src:
+                    tr = True
+        rets = [r for r in ast.walk(nxt) if isinstance(r, ast.Return)]
+        ends = always_exits(nxt.body)
+        for r in rets:
+            yield_returns.add(id(r))
+        ok = ev and tr and ends
+        out.append(result(nm, "proved" if ok else "failed",
+                          "" if ok else "yield block at line %d: scheduler event=%s, turn record with yielded=True=%s, ends with return=%s" % (
+                              nxt.lineno, ev, tr, ends)))
+    # no other early return: every Return of run_turn is the final one, inside a yield block, or in the dry-run block
+    all_rets = [s for s in find_sites(func, lambda n: isinstance(n, ast.Return)) if not s[1].funcs]
+    last = func.body[-1]
+    for node, info in all_rets:
+        if node is last or id(node) in yield_returns:
+            continue
+        gs = [ast.unparse(e) for e, pol in info.guards if pol]
+        if "_dry_run" in gs:
+            continue
+        out.append(result("%s/no-other-early-return@L%d" % (cl["name"], node.lineno), "failed",
+                          "return at line %d is neither a yield at a stage boundary, the dry-run stop, nor the final return" % node.lineno))
+    out.append(result(cl["name"] + "/no-other-early-return", "proved", where="%d returns classified" % len(all_rets)))
+    return out
+
+
+R.fclause("C17", "yield/only-at-stage-boundaries", "custom", RT, fn=yield_sites)
